@@ -112,14 +112,14 @@ def run(ctx, replay=None):
         for (tid, l) in rep.diverged:
             if len(seenp) >= 4:
                 break
-            pre = [ln["act"] for ln in lines[starts[tid] + 1:l]]
-            key = json.dumps(pre)
+            pfx = [ln["act"] for ln in lines[starts[tid] + 1:l]]
+            key = json.dumps(pfx)
             if key in seenp:
                 continue
             seenp.add(key)
-            again = dict(pre[-1])
+            again = dict(pfx[-1])
             mlup = set()
-            for a in pre:
+            for a in pfx:
                 if a["a"] == "mljoin":
                     mlup.add(a["x"])
                 elif a["a"] == "mlleave":
@@ -127,8 +127,8 @@ def run(ctx, replay=None):
             for a in alpha + [again]:
                 if a["a"] == "mljoin" and a["x"] in mlup or a["a"] == "mlleave" and a["x"] not in mlup:
                     continue
-                ext.append(pre + [a])
-                ext.append(pre + [a, again])
+                ext.append(pfx + [a])
+                ext.append(pfx + [a, again])
         if ext:
             amp = {"prefixes": len(seenp), "schedules": len(ext)}
             ta = execute(ctx, binary, nn, ext, "amp")
